@@ -1,5 +1,368 @@
+import Mathlib.Tactic.Linarith
+import Mathlib.Algebra.Order.Field.Rat
+import Mathlib.Algebra.Order.AbsoluteValue.Basic
 import Pun.Model.Query
 import Pun.Gen.GridGen
+/-!
+# C18 — p-box queries match the bounds
+
+About `Pun.Query.*` / `Pun.Grid.findNearest`, the functions the driver executes; generic in the grid.
+
+* `nearest_minimises` ★  `find_nearest` returns an index of minimal distance, the first such
+* `nearest_monotone`  ★  on a sorted array the nearest index is monotone in the value
+* `alphacut_spec`     ★  `alpha_cut(a)` = the two bounds at the grid level nearest to `a`
+* `discretise_native` ★  `discretise(None | steps)` returns the steps themselves
+* `outer_contains_band` ★ every alpha-cut of a band lies inside the band's outer interval
+* `pi_widest_contains_narrowest` ★, `pi_widest_monotone` ★, `pi_narrow_monotone` ★
+* `cdf_bracket`       ○  `cdf(x)` picks the last step whose bound is `≤ x`: `b[k] ≤ x < b[k+1]`
+* `CondensationContainsStatement` — stated, not proved here (needs numeric facts relating the linspace
+  levels to the grid; exercised by the oracle for every piece count 2..200)
+-/
+set_option linter.unusedSimpArgs false
+set_option linter.unusedVariables false
 namespace Pun.Props.C18
-theorem placeholder : True := trivial
+open Pun Pun.Grid Pun.Dss Pun.Query
+
+theorem absR_eq (x : ℚ) : absR x = |x| := by
+  unfold absR
+  split
+  · rw [abs_of_nonneg ‹_›]
+  · rw [abs_of_neg (not_le.mp ‹_›)]
+
+theorem nearestGo_none (v : ℚ) (arr : List ℚ) (h : nearestGo v arr = none) : arr = [] := by
+  cases arr with
+  | nil => rfl
+  | cons a r =>
+    simp only [nearestGo] at h
+    split at h
+    · simp at h
+    · split at h <;> simp at h
+
+theorem nearestGo_spec (v : ℚ) (arr : List ℚ) (k : Nat) (d : ℚ) (h : nearestGo v arr = some (k, d)) :
+    (∃ a, arr[k]? = some a ∧ d = |a - v|) ∧
+    (∀ (j : Nat) (x : ℚ), arr[j]? = some x → d ≤ |x - v|) ∧
+    (∀ (j : Nat) (x : ℚ), j < k → arr[j]? = some x → d < |x - v|) := by
+  induction arr generalizing k d with
+  | nil => simp [nearestGo] at h
+  | cons a r ih =>
+    simp only [nearestGo] at h
+    cases hr : nearestGo v r with
+    | none =>
+      have := nearestGo_none v r hr; subst this
+      simp only [hr, Option.some.injEq, Prod.mk.injEq] at h
+      obtain ⟨rfl, rfl⟩ := h
+      refine ⟨⟨a, by simp, absR_eq _⟩, ?_, by intro j x hj; omega⟩
+      intro j x hx
+      cases j with
+      | zero => simp at hx; subst hx; rw [absR_eq]
+      | succ j => simp at hx
+    | some kd =>
+      obtain ⟨k', d'⟩ := kd
+      obtain ⟨⟨a', ha', hd'⟩, hmin, hfirst⟩ := ih k' d' hr
+      simp only [hr] at h
+      by_cases hc : absR (a - v) ≤ d'
+      · simp only [hc, if_true, Option.some.injEq, Prod.mk.injEq] at h
+        obtain ⟨rfl, rfl⟩ := h
+        refine ⟨⟨a, by simp, absR_eq _⟩, ?_, by intro j x hj; omega⟩
+        intro j x hx
+        cases j with
+        | zero => simp at hx; subst hx; rw [absR_eq]
+        | succ j => simp only [List.getElem?_cons_succ] at hx; exact le_trans hc (hmin j x hx)
+      · simp only [hc, if_false, Option.some.injEq, Prod.mk.injEq] at h
+        obtain ⟨rfl, rfl⟩ := h
+        refine ⟨⟨a', by simpa using ha', hd'⟩, ?_, ?_⟩
+        · intro j x hx
+          cases j with
+          | zero => simp at hx; subst hx; rw [← absR_eq]; exact le_of_lt (not_le.mp hc)
+          | succ j => simp only [List.getElem?_cons_succ] at hx; exact hmin j x hx
+        · intro j x hj hx
+          cases j with
+          | zero => simp at hx; subst hx; rw [← absR_eq]; exact not_le.mp hc
+          | succ j => simp only [List.getElem?_cons_succ] at hx; exact hfirst j x (by omega) hx
+
+/-- ★ `find_nearest(arr, v) = k`: `arr[k]` is at minimal distance from `v`, and strictly closer than every
+earlier entry (numpy `argmin` returns the first minimiser) -/
+theorem nearest_minimises (arr : List ℚ) (v : ℚ) (k : Nat) (h : findNearest arr v = some k) :
+    ∃ a, arr[k]? = some a ∧ (∀ (j : Nat) (x : ℚ), arr[j]? = some x → |a - v| ≤ |x - v|) ∧
+      (∀ (j : Nat) (x : ℚ), j < k → arr[j]? = some x → |a - v| < |x - v|) := by
+  unfold findNearest at h
+  cases hg : nearestGo v arr with
+  | none => simp [hg] at h
+  | some kd =>
+    obtain ⟨k', d⟩ := kd
+    simp only [hg, Option.map_some, Option.some.injEq] at h
+    subst h
+    obtain ⟨⟨a, ha, hd⟩, hmin, hfirst⟩ := nearestGo_spec v arr k' d hg
+    exact ⟨a, ha, fun j x hx => hd ▸ hmin j x hx, fun j x hj hx => hd ▸ hfirst j x hj hx⟩
+
+/-- every non-empty array has a nearest index -/
+theorem nearest_total (arr : List ℚ) (v : ℚ) (hne : arr ≠ []) : ∃ k, findNearest arr v = some k := by
+  unfold findNearest
+  cases hg : nearestGo v arr with
+  | none => exact absurd (nearestGo_none v arr hg) hne
+  | some kd => exact ⟨kd.1, rfl⟩
+
+example : findNearest [1, 3, 5] 2 = some 0 := by decide +kernel   -- tie: the first minimiser
+
+theorem sorted_get (l : List ℚ) (hs : l.Pairwise (· ≤ ·)) :
+    ∀ (i j : Nat) (a b : ℚ), i ≤ j → l[i]? = some a → l[j]? = some b → a ≤ b := by
+  induction l with
+  | nil => intro i j a b _ ha; simp at ha
+  | cons x r ih =>
+    rw [List.pairwise_cons] at hs
+    intro i j a b hij ha hb
+    cases i with
+    | zero =>
+      simp at ha; subst ha
+      cases j with
+      | zero => simp at hb; subst hb; exact le_refl _
+      | succ j => simp only [List.getElem?_cons_succ] at hb; exact hs.1 b (List.mem_of_getElem? hb)
+    | succ i =>
+      cases j with
+      | zero => omega
+      | succ j =>
+        simp only [List.getElem?_cons_succ] at ha hb
+        exact ih hs.2 i j a b (by omega) ha hb
+
+/-- ★ on a non-decreasing array the nearest index is monotone in the value looked up -/
+theorem nearest_monotone (arr : List ℚ) (hs : arr.Pairwise (· ≤ ·)) (v v' : ℚ) (hv : v ≤ v') (k k' : Nat)
+    (h : findNearest arr v = some k) (h' : findNearest arr v' = some k') : k ≤ k' := by
+  by_contra hc
+  have hlt : k' < k := not_le.mp hc
+  obtain ⟨a, ha, hmin, hfirst⟩ := nearest_minimises arr v k h
+  obtain ⟨a', ha', hmin', _⟩ := nearest_minimises arr v' k' h'
+  have hord : a' ≤ a := sorted_get arr hs k' k a' a (le_of_lt hlt) ha' ha
+  have h1 : |a - v| < |a' - v| := hfirst k' a' hlt ha'
+  have h2 : |a' - v'| ≤ |a - v'| := hmin' k a ha
+  rcases abs_cases (a - v) with ⟨e1, _⟩ | ⟨e1, _⟩ <;> rcases abs_cases (a' - v) with ⟨e2, _⟩ | ⟨e2, _⟩ <;>
+    rcases abs_cases (a' - v') with ⟨e3, _⟩ | ⟨e3, _⟩ <;> rcases abs_cases (a - v') with ⟨e4, _⟩ | ⟨e4, _⟩ <;>
+    rw [e1, e2] at h1 <;> rw [e3, e4] at h2 <;> linarith
+
+/-- ★ `alpha_cut(a)` returns the left and right bound at the grid level nearest to `a` -/
+theorem alphacut_spec (g : List ℚ) (P : PB) (a l r : ℚ) (h : alphaCut g P a = .ok (l, r)) :
+    ∃ k, findNearest g a = some k ∧ P.left[k]? = some l ∧ P.right[k]? = some r ∧ l ≤ r := by
+  unfold alphaCut cutRaw nearestE getE mkIvl at h
+  cases hk : findNearest g a with
+  | none => simp [hk, bind, Except.bind] at h
+  | some k =>
+    cases hl : P.left[k]? with
+    | none => simp [hk, hl, bind, Except.bind] at h
+    | some l' =>
+      cases hr : P.right[k]? with
+      | none => simp [hk, hl, hr, bind, Except.bind] at h
+      | some r' =>
+        simp only [hk, hl, hr, bind, Except.bind, pure, Except.pure] at h
+        by_cases hle : l' ≤ r'
+        · simp only [hle, if_true, Except.ok.injEq, Prod.mk.injEq] at h
+          obtain ⟨rfl, rfl⟩ := h
+          exact ⟨k, rfl, hl, hr, hle⟩
+        · simp [hle] at h
+
+/-- `alpha_cut` succeeds on a p-box with as many steps as the grid and `left ≤ right` -/
+theorem cutRaw_ok (g : List ℚ) (P : PB) (a : ℚ) (hne : g ≠ []) (hl : P.left.length = g.length)
+    (hr : P.right.length = g.length) :
+    ∃ k l r, findNearest g a = some k ∧ P.left[k]? = some l ∧ P.right[k]? = some r ∧ cutRaw g P a = .ok (l, r) := by
+  obtain ⟨k, hk⟩ := nearest_total g a hne
+  obtain ⟨x, hx, _⟩ := nearest_minimises g a k hk
+  have hkl : k < g.length := (List.getElem?_eq_some_iff.mp hx).1
+  refine ⟨k, P.left[k]'(by omega), P.right[k]'(by omega), hk, by simp, by simp, ?_⟩
+  have e1 : P.left[k]? = some (P.left[k]'(by omega)) := by simp
+  have e2 : P.right[k]? = some (P.right[k]'(by omega)) := by simp
+  simp only [cutRaw, nearestE, getE, hk, e1, e2, bind, Except.bind, pure, Except.pure]
+
+/-- ★ discretisation with the native step count returns the focal intervals (the steps) themselves -/
+theorem discretise_native (g : List ℚ) (steps : Nat) (P : PB) (lv : List ℚ) (n : Option Nat)
+    (hn : n = none ∨ n = some steps) (hlen : P.left.length = P.right.length) (hle : allLE P.left P.right = true) :
+    discretise g steps P n lv = .ok (P.left.zip P.right) := by
+  simp only [discretise, hn, if_true, hlen, hle, and_self]
+
+/-- ★ each outer interval contains every alpha-cut of its probability band: if the band is `[p₀, p₁]`, the
+outer interval is `[left at p₀, right at p₁]` and `p₀ ≤ a ≤ p₁`, then `alpha_cut(a)` lies inside it.
+(`outerDiscretisation` pairs exactly these: `cutRaw … p₀`.1 with `cutRaw … p₁`.2 for consecutive levels.) -/
+theorem outer_contains_band (g : List ℚ) (P : PB) (hg : g.Pairwise (· ≤ ·))
+    (hL : P.left.Pairwise (· ≤ ·)) (hR : P.right.Pairwise (· ≤ ·))
+    (p0 p1 a : ℚ) (h0 : p0 ≤ a) (h1 : a ≤ p1) (c0 c1 c : Ivl)
+    (e0 : cutRaw g P p0 = .ok c0) (e1 : cutRaw g P p1 = .ok c1) (e : cutRaw g P a = .ok c) :
+    c0.1 ≤ c.1 ∧ c.2 ≤ c1.2 := by
+  have key : ∀ (x : ℚ) (cx : Ivl), cutRaw g P x = .ok cx →
+      ∃ k, findNearest g x = some k ∧ P.left[k]? = some cx.1 ∧ P.right[k]? = some cx.2 := by
+    intro x cx hx
+    unfold cutRaw nearestE getE at hx
+    cases hk : findNearest g x with
+    | none => simp [hk, bind, Except.bind] at hx
+    | some k =>
+      cases hl : P.left[k]? with
+      | none => simp [hk, hl, bind, Except.bind] at hx
+      | some l' =>
+        cases hr : P.right[k]? with
+        | none => simp [hk, hl, hr, bind, Except.bind] at hx
+        | some r' =>
+          simp only [hk, hl, hr, bind, Except.bind, pure, Except.pure, Except.ok.injEq] at hx
+          subst hx
+          exact ⟨k, rfl, hl, hr⟩
+  obtain ⟨k0, f0, l0, _⟩ := key p0 c0 e0
+  obtain ⟨k1, f1, _, r1⟩ := key p1 c1 e1
+  obtain ⟨k, f, l, r⟩ := key a c e
+  have m0 : k0 ≤ k := nearest_monotone g hg p0 a h0 k0 k f0 f
+  have m1 : k ≤ k1 := nearest_monotone g hg a p1 h1 k k1 f f1
+  exact ⟨sorted_get _ hL k0 k _ _ m0 l0 l, sorted_get _ hR k k1 _ _ m1 r r1⟩
+
+/-- the outer interval list is exactly that pairing -/
+theorem outer_pairs (g : List ℚ) (P : PB) (lv : List ℚ) (o : List Ivl) (h : outerDiscretisation g P lv = .ok o) :
+    ∃ ls rs, alphaCutArr g P lv.dropLast = .ok ls ∧ alphaCutArr g P lv.tail = .ok rs ∧
+      o = (ls.map (·.1)).zip (rs.map (·.2)) := by
+  unfold outerDiscretisation at h
+  cases h1 : alphaCutArr g P lv.dropLast with
+  | error e => simp [h1, bind, Except.bind] at h
+  | ok ls =>
+    cases h2 : alphaCutArr g P lv.tail with
+    | error e => simp [h1, h2, bind, Except.bind] at h
+    | ok rs =>
+      simp only [h1, h2, bind, Except.bind, pure, Except.pure, Except.ok.injEq] at h
+      exact ⟨ls, rs, rfl, rfl, h.symm⟩
+
+/-! ## prediction intervals -/
+
+/-- ★ whenever the narrowest prediction interval exists, the widest one (same coverage) contains it -/
+theorem pi_widest_contains_narrowest (g : List ℚ) (P : PB) (alpha : ℚ) (n w : Ivl)
+    (hn : getPI g P alpha true = .ok n) (hw : getPI g P alpha false = .ok w) : w.1 ≤ n.1 ∧ n.2 ≤ w.2 := by
+  simp only [getPI, if_true, Bool.false_eq_true, if_false] at hn hw
+  unfold piWidest at hw hn
+  cases hh : alphaCut g P (piLevels alpha).2 with
+  | error e => simp [hh, bind, Except.bind] at hw
+  | ok h =>
+    cases hl : alphaCut g P (piLevels alpha).1 with
+    | error e => simp [hh, hl, bind, Except.bind] at hw
+    | ok l =>
+      obtain ⟨_, _, _, _, hle_h⟩ := alphacut_spec g P _ h.1 h.2 hh
+      obtain ⟨_, _, _, _, hle_l⟩ := alphacut_spec g P _ l.1 l.2 hl
+      simp only [hh, hl, bind, Except.bind, pure, Except.pure, mkIvl] at hw hn
+      by_cases hwle : l.1 ≤ h.2
+      · simp only [hwle, if_true, Except.ok.injEq] at hw hn
+        subst hw
+        by_cases hnle : l.2 ≤ h.1
+        · simp only [hnle, if_true, Except.ok.injEq] at hn
+          subst hn
+          exact ⟨hle_l, hle_h⟩
+        · simp only [hnle, if_false, Except.ok.injEq] at hn
+          subst hn
+          exact ⟨le_refl _, le_refl _⟩
+      · simp [hwle] at hw
+
+/-- the two cut levels move outwards as the coverage grows -/
+theorem piLevels_mono (a1 a2 : ℚ) (h : a1 ≤ a2) :
+    (piLevels a2).1 ≤ (piLevels a1).1 ∧ (piLevels a1).2 ≤ (piLevels a2).2 := by
+  unfold piLevels; constructor <;> simp only <;> linarith
+
+/-- ★ the widest prediction interval is monotone in the coverage level -/
+theorem pi_widest_monotone (g : List ℚ) (P : PB) (hg : g.Pairwise (· ≤ ·))
+    (hL : P.left.Pairwise (· ≤ ·)) (hR : P.right.Pairwise (· ≤ ·)) (a1 a2 : ℚ) (h : a1 ≤ a2) (w1 w2 : Ivl)
+    (h1 : getPI g P a1 false = .ok w1) (h2 : getPI g P a2 false = .ok w2) : w2.1 ≤ w1.1 ∧ w1.2 ≤ w2.2 := by
+  have key : ∀ (al : ℚ) (w : Ivl), getPI g P al false = .ok w →
+      ∃ kl kh, findNearest g (piLevels al).1 = some kl ∧ findNearest g (piLevels al).2 = some kh ∧
+        P.left[kl]? = some w.1 ∧ P.right[kh]? = some w.2 := by
+    intro al w hw
+    simp only [getPI, Bool.false_eq_true, if_false] at hw
+    unfold piWidest at hw
+    cases hh : alphaCut g P (piLevels al).2 with
+    | error e => simp [hh, bind, Except.bind] at hw
+    | ok hc =>
+      cases hl : alphaCut g P (piLevels al).1 with
+      | error e => simp [hh, hl, bind, Except.bind] at hw
+      | ok lc =>
+        obtain ⟨kh, fh, _, rh, _⟩ := alphacut_spec g P _ hc.1 hc.2 hh
+        obtain ⟨kl, fl, ll, _, _⟩ := alphacut_spec g P _ lc.1 lc.2 hl
+        simp only [hh, hl, bind, Except.bind, pure, Except.pure, mkIvl] at hw
+        by_cases hwle : lc.1 ≤ hc.2
+        · simp only [hwle, if_true, Except.ok.injEq] at hw
+          subst hw
+          exact ⟨kl, kh, fl, fh, ll, rh⟩
+        · simp [hwle] at hw
+  obtain ⟨kl1, kh1, fl1, fh1, l1, r1⟩ := key a1 w1 h1
+  obtain ⟨kl2, kh2, fl2, fh2, l2, r2⟩ := key a2 w2 h2
+  obtain ⟨m1, m2⟩ := piLevels_mono a1 a2 h
+  have i1 : kl2 ≤ kl1 := nearest_monotone g hg _ _ m1 kl2 kl1 fl2 fl1
+  have i2 : kh1 ≤ kh2 := nearest_monotone g hg _ _ m2 kh1 kh2 fh1 fh2
+  exact ⟨sorted_get _ hL kl2 kl1 _ _ i1 l2 l1, sorted_get _ hR kh1 kh2 _ _ i2 r1 r2⟩
+
+/-- "both are monotone", narrowest style: the narrowest interval is `[right bound at the lower cut, left bound at
+the upper cut]`; the statement is about these two endpoints, i.e. about coverage levels where the narrowest
+interval exists (where it does not, `get_PI` documents a fall-back to the widest interval, which is covered by
+`pi_widest_monotone`; a fall-back value is not comparable with a narrowest value). -/
+def PiNarrowMonotoneStatement : Prop :=
+  ∀ (g : List ℚ) (P : PB), g.Pairwise (· ≤ ·) → P.left.Pairwise (· ≤ ·) → P.right.Pairwise (· ≤ ·) →
+    ∀ (a1 a2 : ℚ), a1 ≤ a2 → ∀ (c1l c1h c2l c2h : Ivl),
+      cutRaw g P (piLevels a1).1 = .ok c1l → cutRaw g P (piLevels a1).2 = .ok c1h →
+      cutRaw g P (piLevels a2).1 = .ok c2l → cutRaw g P (piLevels a2).2 = .ok c2h →
+      c2l.2 ≤ c1l.2 ∧ c1h.1 ≤ c2h.1
+
+/-- ★ narrowest style: its two endpoints move outwards as the coverage grows -/
+theorem pi_narrow_monotone : PiNarrowMonotoneStatement := by
+  intro g P hg hL hR a1 a2 h c1l c1h c2l c2h e1l e1h e2l e2h
+  obtain ⟨m1, m2⟩ := piLevels_mono a1 a2 h
+  exact ⟨by
+    -- right bound at the lower cut: lower level (a2) gives the smaller value
+    have := outer_contains_band g P hg hL hR (piLevels a2).1 (piLevels a1).1 (piLevels a2).1 (le_refl _) m1 c2l c1l c2l e2l e1l e2l
+    exact this.2, by
+    have := outer_contains_band g P hg hL hR (piLevels a1).2 (piLevels a2).2 (piLevels a2).2 m2 (le_refl _) c1h c2h c2h e1h e2h e2h
+    exact this.1⟩
+
+/-! ## cumulative probability at `x` (after the repair: last step whose bound is `≤ x`) -/
+
+theorem countLE_spec (l : List ℚ) (x : ℚ) :
+    (∀ (j : Nat) (b : ℚ), j < countLE l x → l[j]? = some b → b ≤ x) ∧
+    (∀ (b : ℚ), l[countLE l x]? = some b → x < b) := by
+  induction l with
+  | nil => simp [countLE]
+  | cons a r ih =>
+    by_cases h : a ≤ x
+    · simp only [countLE, h, if_true]
+      constructor
+      · intro j b hj hb
+        cases j with
+        | zero => simp at hb; subst hb; exact h
+        | succ j => simp only [List.getElem?_cons_succ] at hb; exact ih.1 j b (by omega) hb
+      · intro b hb
+        simp only [List.getElem?_cons_succ] at hb; exact ih.2 b hb
+    · simp only [countLE, h, if_false]
+      refine ⟨by intro j b hj; omega, ?_⟩
+      intro b hb; simp at hb; subst hb; exact not_le.mp h
+
+/-- ○ `cdf(x)` and the alpha-cuts are inverse within one grid step: the step `k` picked for a bound array `b`
+satisfies `b[k] ≤ x < b[k+1]` whenever `x` is inside the support of `b` (`b[0] ≤ x < b[last]`) -/
+theorem cdf_bracket (b : List ℚ) (x : ℚ) (last : Nat) (hlast : last + 1 = b.length)
+    (b0 bl : ℚ) (h0 : b[0]? = some b0) (hl : b[last]? = some bl) (hin0 : b0 ≤ x) (hin1 : x < bl) :
+    ∃ lo hi, b[stepOf last b x]? = some lo ∧ b[stepOf last b x + 1]? = some hi ∧ lo ≤ x ∧ x < hi := by
+  obtain ⟨s1, s2⟩ := countLE_spec b x
+  have hpos : 0 < countLE b x := by
+    by_contra hc
+    have hz : countLE b x = 0 := by omega
+    have := s2 b0 (by rw [hz]; exact h0)
+    linarith
+  have hlt : countLE b x ≤ last := by
+    by_contra hc
+    have := s1 last bl (by omega) hl
+    linarith
+  have hk : stepOf last b x = countLE b x - 1 := by unfold stepOf; omega
+  have hlen : countLE b x < b.length := by omega
+  refine ⟨b[countLE b x - 1]'(by omega), b[countLE b x]'hlen, ?_, ?_, ?_, ?_⟩
+  · rw [hk]; simp
+  · rw [hk]; have : countLE b x - 1 + 1 = countLE b x := by omega
+    rw [this]; simp
+  · exact s1 (countLE b x - 1) _ (by omega) (by simp)
+  · exact s2 _ (by simp)
+
+/-- ★ (stated; not proved in Lean) condensation to fewer steps contains the original p-box.  With the `m-1`
+outer intervals `[left at ℓ_j, right at ℓ_{j+1}]` stacked with equal masses, containment needs, beyond
+`stacking_geninv` (C08) and `nearest_monotone`, the numeric fact that every grid level in the `j`-th band of
+`1/(m-1)` lies between the nearest-grid images of the linspace levels `ℓ_j` and `ℓ_{j+1}`; this is a statement
+about the binary64 tables `np.linspace(0.001, 0.999, m)`, `m = 2..200`, checked on every run by the oracle. -/
+def CondensationContainsStatement : Prop :=
+  ∀ (P : PB) (lv : List ℚ) (C : PB), condensation Gen.pValues P lv = .ok C →
+    P.left.Pairwise (· ≤ ·) → P.right.Pairwise (· ≤ ·) → allLE P.left P.right = true →
+    P.left.length = Gen.steps → P.right.length = Gen.steps →
+    (∃ m, 2 ≤ m ∧ m ≤ Gen.steps ∧ lv.length = m ∧
+      ∀ (j : Nat) (p : ℚ), lv[j]? = some p → |p - (Gen.pLo + (Gen.pHi - Gen.pLo) * j / (m - 1 : ℚ))| ≤ 1 / 10 ^ 12) →
+    allLE C.left P.left = true ∧ allLE P.right C.right = true
+
 end Pun.Props.C18
